@@ -3,6 +3,7 @@ import os
 from lib import Case, hx, doc_case, unhx
 import xmlcanon
 
+DOC_MODEL = True     # every generated document also runs through the composed Coq model of the whole transform
 RULE = ('translation validation: documents with templates (single shapes rect / circle / ellipse and groups, parameterised by variables '
         'in geometry, text and class; placed in <specs>, in <defs> or inline; before or after their uses) and sequences of 1-5 '
         '<reuse> instantiations with different bindings, ids, classes, styles and x/y offsets, next to ordinary elements and probes; '
